@@ -6,6 +6,7 @@ CONSTANTS
   Heads <- DHeads
   Menu <- DMenu
   Plans <- DPlans
+  Wraps <- DWraps
   NoBarChoices <- DNoBar
   ArgVecs <- MCArgVecs
   CheckArgs = {2}
